@@ -297,25 +297,46 @@ pub fn map_ladder<D: Distance>(spec: &HistorySpec, st: &mut CaseStats) -> Result
     Ok(())
 }
 
-/// Unusable temp directories.
-pub fn tmpdir_faults<D: Distance>(spec: &HistorySpec, st: &mut CaseStats) -> Result<(), Fail> {
+/// Unusable temp directories, on a first build (`incremental` false) or on an already built index with
+/// pending insertions and deletions (or deletions only).
+pub fn tmpdir_faults<D: Distance>(spec: &HistorySpec, incremental: bool, deletions_only: bool, st: &mut CaseStats) -> Result<(), Fail> {
     let tenv = TestEnv::new(DEFAULT_MAP).map_err(Fail::Infra)?;
-    let (db, raw) = interp::setup::<D>(&tenv)?;
     let isp = &spec.indexes[0];
     let b = spec.rounds[0].builds.first().cloned().unwrap_or(BuildOpts { ix: 0, n_trees: Some(2), split_after: None, avail_mem: None, rng_seed: 1, threads: 1, cancel_at: None });
     let b = BuildOpts { threads: 1, cancel_at: None, ..b };
-    let mut w = Writer::<D>::new(db, isp.index, isp.dims);
-    let mut model = new_model();
-    let mut wtxn = tenv.env.write_txn().map_err(|e| Fail::Infra(format!("{e}")))?;
-    for op in &spec.rounds[0].ops {
-        if let Op::Add { slot, vseed, .. } = op {
-            let id = isp.id_of(*slot);
-            let v = crate::values::vector(isp.class, *vseed, isp.dims);
-            w.add_item(&mut wtxn, id, &v).map_err(|e| Fail::Infra(format!("{e:?}")))?;
-            model.items.insert(id, v);
+    let (db, raw, model) = if incremental {
+        let (db, raw, writers, mut model) = setup_base::<D>(&tenv, spec, st)?;
+        let cfg = RunCfg::default();
+        let mut wtxn = tenv.env.write_txn().map_err(|e| Fail::Infra(format!("{e}")))?;
+        for op in &spec.rounds[1].ops {
+            if deletions_only && !matches!(op, Op::Del { .. }) {
+                continue;
+            }
+            apply_op(spec.metric, raw, &writers, &spec.indexes, &mut model, &mut wtxn, op, &cfg, st)?;
         }
-    }
-    wtxn.commit().map_err(|e| Fail::Infra(format!("{e}")))?;
+        wtxn.commit().map_err(|e| Fail::Infra(format!("{e}")))?;
+        if !model[0].stale {
+            return Err(Fail::Discard("nothing pending".into()));
+        }
+        st.bump(if deletions_only { "tmpdir_incremental_deletions_only" } else { "tmpdir_incremental" });
+        (db, raw, model.remove(0))
+    } else {
+        let (db, raw) = interp::setup::<D>(&tenv)?;
+        let w = Writer::<D>::new(db, isp.index, isp.dims);
+        let mut model = new_model();
+        let mut wtxn = tenv.env.write_txn().map_err(|e| Fail::Infra(format!("{e}")))?;
+        for op in &spec.rounds[0].ops {
+            if let Op::Add { slot, vseed, .. } = op {
+                let id = isp.id_of(*slot);
+                let v = crate::values::vector(isp.class, *vseed, isp.dims);
+                w.add_item(&mut wtxn, id, &v).map_err(|e| Fail::Infra(format!("{e:?}")))?;
+                model.items.insert(id, v);
+            }
+        }
+        wtxn.commit().map_err(|e| Fail::Infra(format!("{e}")))?;
+        (db, raw, model)
+    };
+    let mut w = Writer::<D>::new(db, isp.index, isp.dims);
     let before = {
         let rtxn = tenv.env.read_txn().map_err(|e| Fail::Infra(format!("{e}")))?;
         raw_dump(&rtxn, raw).map_err(Fail::Infra)?
@@ -334,6 +355,7 @@ pub fn tmpdir_faults<D: Distance>(spec: &HistorySpec, st: &mut CaseStats) -> Res
                 // accepted only when the build genuinely did not need a temp file and the result is valid
                 let mut m = model.clone();
                 m.built = true;
+                m.stale = false;
                 let mut scratch = CaseStats::default();
                 match interp::check_built_index::<D>(spec.metric, db, raw, &wtxn, isp, &m, Some(&b), 9, &built_cfg(), &mut scratch) {
                     Ok(()) => {}
@@ -341,7 +363,14 @@ pub fn tmpdir_faults<D: Distance>(spec: &HistorySpec, st: &mut CaseStats) -> Res
                     Err(e) => return Err(e),
                 }
                 if model.items.len() > cap {
-                    return violation("tmpdir:ignored", format!("tmpdir = {what}: a build of {} items (capacity {cap}) needs scratch files but returned Ok", model.items.len()));
+                    return violation(
+                        "tmpdir:ignored",
+                        format!(
+                            "tmpdir = {what}: a {} build of {} items (capacity {cap}) stages tree nodes in scratch files, yet it returned Ok with the configured temp directory unusable",
+                            if incremental { "incremental" } else { "first" },
+                            model.items.len()
+                        ),
+                    );
                 }
                 st.bump("tmpdir_not_needed");
             }
@@ -373,6 +402,7 @@ pub fn tmpdir_faults<D: Distance>(spec: &HistorySpec, st: &mut CaseStats) -> Res
     }
     let mut m = model.clone();
     m.built = true;
+    m.stale = false;
     let mut scratch = CaseStats::default();
     match interp::check_built_index::<D>(spec.metric, db, raw, &wtxn, isp, &m, Some(&b), 9, &built_cfg(), &mut scratch) {
         Ok(()) => {}
@@ -479,7 +509,8 @@ pub fn fault_case(c: &FaultCase, st: &mut CaseStats) -> Result<(), Fail> {
         }
         _ => {
             st.bump("kind_tmpdir");
-            with_metric!(c.spec.metric, D => tmpdir_faults::<D>(&c.spec, st))
+            let (incremental, deletions_only) = (c.kind == 9, c.kind == 9 && c.same_txn);
+            with_metric!(c.spec.metric, D => tmpdir_faults::<D>(&c.spec, incremental, deletions_only, st))
         }
     }
 }
